@@ -184,8 +184,9 @@ Proof.
   assert (NU : forall w0, SR w0 (fold_left (fun w1 u => signal f nw false w1 u) (d_up (getd w0 d)) w0)).
   { intro w0. apply SR_fold. intros; apply IH. }
   assert (SW : SR w (fold_left (fun w1 u => signal f nw false w1 u)
-                               (d_up (getd (updd w d (dev_set_wait nw true false)) d)) (updd w d (dev_set_wait nw true false)))).
-  { apply (SR_trans w (updd w d (dev_set_wait nw true false))); [apply (SR_dev w d (fun _ => True)); [kp|exact I]|apply NU]. }
+                               (d_up (getd (wait_if_empty nw w d) d)) (wait_if_empty nw w d))).
+  { unfold wait_if_empty. destruct (d_part (getd w d)); [apply NU|]. destruct (d_out (getd w d)); [apply NU|].
+    apply (SR_trans w (updd w d (dev_set_wait nw true false))); [apply (SR_dev w d (fun _ => True)); [kp|exact I]|apply NU]. }
   destruct m.
   - destruct (d_kind x); try apply NU; try exact SW.
     + destruct (inf_ltb (d_level x) (d_capacity x)); [exact SW|constructor].
@@ -288,9 +289,10 @@ Proof.
   - set (x := getd w d).
     assert (SW : forall w0, d_buf (getd (fold_left (fun w1 u => signal f nw false w1 u) (d_up (getd w0 d)) w0) d') = d_buf (getd w0 d')).
     { intro w0. apply FL. intros; apply IH. }
-    assert (SW2 : d_buf (getd (fold_left (fun w1 u => signal f nw false w1 u) (d_up (getd (updd w d (dev_set_wait nw true false)) d))
-                                          (updd w d (dev_set_wait nw true false))) d') = d_buf (getd w d')).
-    { rewrite SW. apply getd_updd_field. intro y. unfold dev_set_wait. cbn. destruct (d_wait_since y); reflexivity. }
+    assert (SW2 : d_buf (getd (fold_left (fun w1 u => signal f nw false w1 u) (d_up (getd (wait_if_empty nw w d) d))
+                                          (wait_if_empty nw w d)) d') = d_buf (getd w d')).
+    { rewrite SW. unfold wait_if_empty. destruct (d_part (getd w d)); [reflexivity|]. destruct (d_out (getd w d)); [reflexivity|].
+      apply getd_updd_field. intro y. unfold dev_set_wait. cbn. destruct (d_wait_since y); reflexivity. }
     destruct m.
     + destruct (d_kind x); try apply SW; try exact SW2.
       * destruct (inf_ltb (d_level x) (d_capacity x)); [exact SW2|reflexivity].
